@@ -1183,6 +1183,165 @@ def translate_clone(mod, cls):
             f"({new['index']}, {new['line']}, {new['column']}).\n")
 
 
+# ---------------------------------------------------------------- _to_tokens, options_to_items
+
+class PairFn:
+    """_to_tokens: `for token in _tokenize(text, state)` over the run of the generator (tokens, pending exception),
+    yielding (key, value | None) in the generic writer `gw` of coq/Opt/OptSrcLib.v; a KeyToken / ValueToken variable stands
+    for its .value (str), `token.start` for the start index carried by TValue; key_token : option str.
+    options_to_items: the list built by output.append over the yielded pairs; an exception of the generator propagates."""
+
+    def __init__(self, mod):
+        self.mod = mod
+        self.n = 0
+
+    def fresh(self):
+        self.n += 1
+        return f"__k{self.n}"
+
+    def pair(self, e, known, tokval):
+        if not (isinstance(e, ast.Tuple) and len(e.elts) == 2 and ast.unparse(e.elts[0]) == "key_token"):
+            bad(e, "yielded pair")
+        if known is None:
+            bad(e, "key_token may be None here")
+        v = e.elts[1]
+        if isinstance(v, ast.Constant) and v.value is None:
+            return f"({known}, None)"
+        if ast.unparse(v) == "token" and tokval:
+            return f"({known}, Some {tokval})"
+        bad(e, "yielded value")
+
+    def block(self, body, known, tokval, tokstart, final):
+        """statements of one branch; `final(known_or_None_expr)` gives the key_token returned"""
+        if not body:
+            return final(known)
+        s, rest = body[0], body[1:]
+        if isinstance(s, ast.If) and not s.orelse and ast.unparse(s.test) in ("key_token is not None", "key_token is None"):
+            if known is not None and known != "?":
+                bad(s, "test of a key_token already known")
+            k = self.fresh()
+            if ast.unparse(s.test) == "key_token is not None":
+                inner = self.block(list(s.body), k, tokval, tokstart, lambda kn: "gret tt")
+                cont = self.block(rest, "?", tokval, tokstart, final)
+                return f"dog _ <- (match key_token with Some {k} => {inner} | None => gret tt end);\n{cont}"
+            # `if key_token is None: raise ...` : afterwards the key is known
+            if not (len(s.body) == 1 and isinstance(s.body[0], ast.Raise)):
+                bad(s, "`if key_token is None:` without raise")
+            r = s.body[0].exc
+            if not (isinstance(r, ast.Call) and ast.unparse(r.func) == "TokenizeError" and len(r.args) == 2 and not r.keywords
+                    and ast.unparse(r.args[1]) == "token.start" and tokstart):
+                bad(s, "raise in _to_tokens")
+            cont = self.block(rest, k, tokval, tokstart, final)
+            return f"match key_token with None => graise (TokenizeError {tokstart}) | Some {k} =>\n{cont}\nend"
+        if isinstance(s, ast.Expr) and isinstance(s.value, ast.Yield):
+            if known == "?":
+                bad(s, "key_token may be None here")
+            return f"dog _ <- gyield {self.pair(s.value.value, known, tokval)};\n" + self.block(rest, known, tokval, tokstart, final)
+        if isinstance(s, ast.Assign) and ast.unparse(s.targets[0]) == "key_token" and len(s.targets) == 1:
+            if isinstance(s.value, ast.Constant) and s.value.value is None:
+                return self.block(rest, "None!", tokval, tokstart, final)
+            if ast.unparse(s.value) == "token" and tokval:
+                return self.block(rest, "Some!" + tokval, tokval, tokstart, final)
+            bad(s, "assignment to key_token")
+        bad(s, "statement in _to_tokens")
+
+    @staticmethod
+    def keyexpr(known):
+        if known == "?" or known is None:
+            return "key_token"
+        if known == "None!":
+            return "None"
+        if known.startswith("Some!"):
+            return f"(Some {known[5:]})"
+        return f"(Some {known})"
+
+    def to_tokens(self):
+        fn = self.mod.funcs["_to_tokens"]
+        if [a.arg for a in fn.args.args] != ["text", "state", "line_offset", "column_offset"]:
+            bad(fn, "signature of _to_tokens")
+        body = [s for s in fn.body if not (isinstance(s, ast.Expr) and isinstance(s.value, ast.Constant))]
+        if not (len(body) == 2 and isinstance(body[0], ast.AnnAssign) and ast.unparse(body[0].target) == "key_token"
+                and isinstance(body[0].value, ast.Constant) and body[0].value.value is None and isinstance(body[1], ast.Try)):
+            bad(fn, "_to_tokens is not `key_token = None; try: ...`")
+        tr = body[1]
+        if tr.orelse or tr.finalbody or len(tr.handlers) != 1 or len(tr.body) != 2:
+            bad(tr, "try statement of _to_tokens")
+        loop, after = tr.body
+        if not (isinstance(loop, ast.For) and ast.unparse(loop.target) == "token" and not loop.orelse
+                and ast.unparse(loop.iter) == "_tokenize(text, state)"):
+            bad(loop, "loop of _to_tokens")
+        # the isinstance chain
+        cases, node = {}, loop.body[0] if len(loop.body) == 1 else bad(loop, "loop body")
+        while True:
+            if not (isinstance(node, ast.If) and isinstance(node.test, ast.Call) and ast.unparse(node.test.func) == "isinstance"
+                    and len(node.test.args) == 2 and ast.unparse(node.test.args[0]) == "token"
+                    and ast.unparse(node.test.args[1]) in ("KeyToken", "ValueToken", "ColonToken")):
+                bad(node, "isinstance chain")
+            cls = ast.unparse(node.test.args[1])
+            if cls in cases:
+                bad(node, "class tested twice")
+            cases[cls] = list(node.body)
+            if len(node.orelse) == 1 and isinstance(node.orelse[0], ast.If):
+                node = node.orelse[0]
+                continue
+            if node.orelse:
+                bad(node, "else of the isinstance chain")
+            break
+        fin = lambda kn: f"gret {self.keyexpr(kn)}"
+        arms = []
+        for cls, pat, tv, ts in (("KeyToken", "TKey __v", "__v", None), ("ColonToken", "TColon", None, None),
+                                 ("ValueToken", "TValue __start __v", "__v", "__start")):
+            arms.append(f"| {pat} =>\n" + (self.block(cases[cls], None, tv, ts, fin) if cls in cases else "gret key_token"))
+        out = ("Fixpoint to_tokens_src_f1 (__todo : list token) (key_token : option str) : gw (str * option str) (option str) :=\n"
+               "match __todo with [] => gret key_token | token :: __rest =>\n"
+               "dog key_token <- (match token with\n" + "\n".join(arms) + "\nend);\n"
+               "to_tokens_src_f1 __rest key_token\nend.\n")
+        # after the loop
+        tail = self.block([after], None, None, None, lambda kn: "gret tt")
+        out += ("Definition to_tokens_src (text : str) : gw (str * option str) unit :=\n"
+                "let '(__toks, __pending) := tokenize_src text in\n"
+                "dog key_token <- to_tokens_src_f1 __toks None;\n"
+                "match __pending with Some __e => graise __e | None =>   (* the exception the generator _tokenize ends with *)\n"
+                + tail + "\nend.\n")
+        # the handler: re-raise, cloned when an offset is given
+        h = tr.handlers[0]
+        if not (ast.unparse(h.type) == "TokenizeError" and h.name == "exc" and len(h.body) == 2
+                and isinstance(h.body[0], ast.If) and not h.body[0].orelse and isinstance(h.body[0].test, ast.BoolOp)
+                and isinstance(h.body[0].test.op, ast.Or) and [ast.unparse(v) for v in h.body[0].test.values] == ["line_offset", "column_offset"]
+                and len(h.body[0].body) == 1 and isinstance(h.body[0].body[0], ast.Raise)
+                and ast.unparse(h.body[0].body[0].exc) == "exc.clone(line_offset, column_offset)"
+                and isinstance(h.body[1], ast.Raise) and h.body[1].exc is None):
+            bad(h, "handler of _to_tokens")
+        out += ("Definition reraise_mark_src (problem_mark : N * N * N) (line_offset column_offset : N) : N * N * N :=\n"
+                "if (negb (line_offset =? 0)) || (negb (column_offset =? 0)) then clone_src problem_mark line_offset column_offset\n"
+                "else problem_mark.\n")
+        return out
+
+    def options_to_items(self):
+        fn = self.mod.funcs["options_to_items"]
+        if [a.arg for a in fn.args.args] != ["text", "line_offset", "column_offset"]:
+            bad(fn, "signature of options_to_items")
+        body = [ast.unparse(s) for s in fn.body if not (isinstance(s, ast.Expr) and isinstance(s.value, ast.Constant))]
+        want = ["output = []", "state = State()",
+                "for key_token, value_token in _to_tokens(text, state, line_offset, column_offset):\n"
+                "    output.append((key_token.value, value_token.value if value_token is not None else ''))",
+                "return (output, state)"]
+        if body != want:
+            bad(fn, "options_to_items is not the expected append loop")
+        loop = [s for s in fn.body if isinstance(s, ast.For)][0]
+        app = loop.body[0].value.args[0]
+        dflt = app.elts[1].orelse
+        return ("Fixpoint options_to_items_src_f1 (__todo : list (str * option str)) (output : list (str * str)) : list (str * str) :=\n"
+                "match __todo with [] => output | (key_token, value_token) :: __rest =>\n"
+                f"let output := output ++ [(key_token, match value_token with Some __v => __v | None => {nlist(dflt.value)} end)] in\n"
+                "options_to_items_src_f1 __rest output\nend.\n"
+                "Definition options_to_items_src (text : str) : res (list (str * str)) :=\n"
+                "let output := [] in\n"
+                "let '(__pairs, __r) := to_tokens_src text in\n"
+                "do _ <- __r;     (* an exception of the generator propagates, the output is dropped *)\n"
+                "Ok (options_to_items_src_f1 __pairs output).\n")
+
+
 class Module:
     def __init__(self, source):
         tree = ast.parse(source)
@@ -1244,6 +1403,23 @@ def translate(source, which=None):
             raise Untranslatable("function _tokenize not found")
         out.append("(* _tokenize *)")
         out.append(TokFn(mod).translate())
+        for f in ("_to_tokens", "options_to_items"):
+            if f not in mod.funcs:
+                raise Untranslatable(f"function {f} not found")
+        pf = PairFn(mod)
+        out.append("(* _to_tokens *)")
+        out.append(pf.to_tokens())
+        out.append("(* options_to_items *)")
+        out.append(pf.options_to_items())
+        # the same functions once more, over the translated StreamBuffer methods instead of the primitives of OptModel.v
+        i = out.index("(* _scan_line_break *)")
+        body = "\n".join(out[i:])
+        body = re.sub(r"\b(\w+?)_src\b", lambda m: m.group(0) if m.group(1) in ("clone", "new_stream", "peek", "prefix", "forward", "get_position") else m.group(1) + "_full", body)
+        body = re.sub(r"\b(\w+?)_src(_[wf]\d+)\b", r"\1_full\2", body)
+        body = re.sub(r"\b(peek|prefix|forward|new_stream)\b(?!_)", r"\1_src", body)
+        out.append("(* ---- the same functions over the translated class StreamBuffer (peek_src, prefix_src, forward_src,\n"
+                   "        new_stream_src): `<fn>_full`; options_to_items_full is the whole translated entry point ---- *)")
+        out.append(body)
     return "\n".join(out)
 
 
